@@ -426,10 +426,13 @@ CancelB ==
   /\ IsEvent("CancelB")
   /\ cancelOK' = IF Ev.id \in DOMAIN used THEN cancelOK \cup {used[Ev.id]} ELSE cancelOK
   /\ UNCHANGED <<conc, push, mem, units, rq, used, running, stopped, pend, causes, hcanc, cbs, notes, waitRet, rdDone, sendBad, stopOpen>>
-\* CancelRequest has returned.  (The harness runs it while every other goroutine is parked or blocked, so the
-\* owner of the id is the one CancelB saw.)
+\* CancelRequest has returned.  (Mostly the harness runs it while every other goroutine is parked or blocked, and the
+\* owner of the id is the one CancelB saw.  A probe issues it while a Send is held inside the server's lock: it then waits
+\* for that lock and takes effect later, on whoever owns the id by then - a reply may have gone out and a later call taken
+\* the id meanwhile.  The owner at its return is therefore cancellable as well.)
 CancelE == /\ IsEvent("CancelE")
-           /\ cancelOK' = IF Saturated THEN cancelOK \cup {"done:" \o t : t \in {x \in WaitingCalls : mem[x].id = Ev.id}} ELSE cancelOK
+           /\ cancelOK' = (IF Saturated THEN cancelOK \cup {"done:" \o t : t \in {x \in WaitingCalls : mem[x].id = Ev.id}} ELSE cancelOK)
+                             \cup (IF Ev.id \in DOMAIN used THEN {used[Ev.id]} ELSE {})
            /\ UNCHANGED <<conc, push, mem, units, rq, used, running, stopped, pend, causes, hcanc, cbs, notes, waitRet, rdDone, sendBad, stopOpen>>
 \* The context ServerOptions.NewContext hands out has ended: every request context, present and future, is done.
 BaseEnd == /\ IsEvent("BaseEnd")
